@@ -217,6 +217,12 @@ pub fn subjects() -> Vec<Subject> {
                 form::<T>("slice", |r, v| mpush(r, v.as_slice())),
                 form::<T>("ref_vec", |r, v| mpush(r, v)),
                 form::<T>("vec", |r, v| mpush(r, v.clone())),
+                // an owned vector that carries spare capacity (built incrementally / with_capacity)
+                form::<T>("vec_slack", |r, v| {
+                    let mut a = Vec::with_capacity(v.len() + 40);
+                    a.extend(v.iter().cloned());
+                    mpush(r, a)
+                }),
                 form::<T>("refref_slice", |r, v| mpush(r, &v.as_slice())),
                 form::<T>("array", |r, v| {
                     by_len!(v, mpush(r, v.as_slice()), [0 => mpush(r, [] as [$e; 0]), 1 => mpush(r, [v[0]]), 2 => mpush(r, [v[0], v[1]]), 3 => mpush(r, [v[0], v[1], v[2]])])
@@ -262,6 +268,11 @@ pub fn subjects() -> Vec<Subject> {
             form::<T>("str", |r, v| mpush(r, v.as_str())),
             form::<T>("ref_string", |r, v| mpush(r, v)),
             form::<T>("string", |r, v| mpush(r, v.clone())),
+            form::<T>("string_slack", |r, v| {
+                let mut a = String::with_capacity(v.len() + 40);
+                a.push_str(v);
+                mpush(r, a)
+            }),
             form::<T>("refref_str", |r, v| mpush(r, &v.as_str())),
         ];
         c.reserve_forms = vec![
@@ -578,6 +589,11 @@ pub fn subjects() -> Vec<Subject> {
                 form::<$t>("str", |r, v| mpush(r, v.as_str())),
                 form::<$t>("ref_string", |r, v| mpush(r, v)),
                 form::<$t>("string", |r, v| mpush(r, v.clone())),
+                form::<$t>("string_slack", |r, v| {
+                    let mut a = String::with_capacity(v.len() + 40);
+                    a.push_str(v);
+                    mpush(r, a)
+                }),
             ]
         };
     }
@@ -635,6 +651,12 @@ pub fn subjects() -> Vec<Subject> {
                 form::<T>("slice", |r, v| mpush(r, v.as_slice())),
                 form::<T>("ref_vec", |r, v| mpush(r, v)),
                 form::<T>("vec", |r, v| mpush(r, v.clone())),
+                // an owned vector that carries spare capacity (built incrementally / with_capacity)
+                form::<T>("vec_slack", |r, v| {
+                    let mut a = Vec::with_capacity(v.len() + 40);
+                    a.extend(v.iter().cloned());
+                    mpush(r, a)
+                }),
             ];
             c.reserve_forms = bytes_like_reserve!(T, $res);
             clone_caps!(c, T);
